@@ -475,7 +475,7 @@ impl Harness for C19 {
     fn budget(&self, tier: Tier) -> Budget {
         match tier {
             Tier::Quick => Budget {
-                runs: 1_000_000,
+                runs: 2_500_000,
                 soft_s: 60,
             },
             Tier::Thorough => Budget {
